@@ -269,6 +269,7 @@ class C17(Property):
         script.append(["idle", W.pick("idlek", [1, 3, 10])])
     while len(specs) < nplayers:
       new_player()
+    parked_ok = False
     if wait:
       # waiting for audio that can never finish is the specified behaviour,
       # not a hang: resume or stop such players before closing
@@ -278,6 +279,13 @@ class C17(Property):
         if st["endless"]:
           script.append(["stop", i])
         elif st["paused"]:
+          if W.chance("leave-paused", 1, 4):
+            # left paused: if the pause reached the player in time, close()
+            # waits for ever - as specified; such an end of the run is
+            # accepted (and nothing else is).  If the pause came too late
+            # (the player was already finishing) close() must return.
+            parked_ok = True
+            continue
           script.append(["resume" if W.choose("fixp", 2) == 0 else "stop", i])
     observe = None
     if specs and W.chance("observe", 1, 60):
@@ -290,6 +298,7 @@ class C17(Property):
                                     (3, "with"), (1, "with-exc")]),
           "api": W.weighted("api", [(5, None), (1, "jack")]),
           "gchunk": gchunk,
+          "parked_ok": parked_ok,
           # backend variation: PyAudio's private stream registry kept
           # faithfully, or left empty (streams registered elsewhere)
           "registry": W.weighted("registry", [(5, "faithful"), (1, "empty")]),
@@ -785,6 +794,7 @@ class C17(Property):
       return True
 
     violation = None
+    specified_wait = False
     try:
       try:
         sched.run(main)
@@ -802,6 +812,25 @@ class C17(Property):
       if violation.klass in ("deadlock", "no-progress") and sched.phase == 2:
         violation = Violation("close-hang:" + violation.klass,
                               violation.signature, violation.detail)
+      if violation.klass == "close-hang:deadlock" and \
+         workload.get("parked_ok") and workload["wait"] and \
+         violation.signature == "main@join(P)|P@ev.wait":
+        # close(wait=True) waits for players that the script paused and
+        # never resumed or stopped: the specified behaviour, not a hang
+        legit = True
+        for t in sched.threads:
+          if t is sched.main or t.state == "finished":
+            continue
+          idx = [i for i, th in enumerate(ctl["players"])
+                 if th is not None and getattr(th, "_sim_thread", None) is t]
+          if not idx or idx[0] not in ctl["paused"] or \
+             idx[0] in ctl["stopped"]:
+            legit = False
+        if legit:
+          violation = None
+          specified_wait = True
+          res.counters["probe.close-waits-for-a-parked-player-as-specified"] \
+            += 1
     except HarnessError:
       raise
     except Exception as exc:
@@ -828,7 +857,8 @@ class C17(Property):
                               % (workload["observe"]["what"],
                                  "died" if crashed else "survived", how))
       violation = None
-    elif violation is None and not sched.budget_exhausted:
+    elif violation is None and not sched.budget_exhausted and \
+         not specified_wait:
       violation = self.judge(workload, rt_specs, ctl, world, outcome, sched)
     res.violation = violation
 
